@@ -170,7 +170,26 @@ pub fn configs(thorough: bool) -> Vec<Cfg> {
     v
 }
 
+/// A deployment may export SENTINEL_CONFIG_FILE_PATH (used when no file is named explicitly). It is
+/// set here, pointing at a valid file holding the DEFAULT configuration, for every initialisation
+/// of this process: a file named explicitly (and an entity) must still be what takes effect.
+fn export_default_config_file() -> std::path::PathBuf {
+    let path = std::path::PathBuf::from(format!("{}/../tmp/c17-env-{}.yaml", env!("CARGO_MANIFEST_DIR"), std::process::id()));
+    let _ = std::fs::create_dir_all(path.parent().unwrap());
+    let text = serde_yaml::to_string(&sentinel_core::config::ConfigEntity::new()).unwrap();
+    std::fs::write(&path, text).unwrap();
+    std::env::set_var("SENTINEL_CONFIG_FILE_PATH", &path);
+    path
+}
+
 pub fn run(o: &Opts, stats: &mut Stats) -> Option<usize> {
+    let env_file = export_default_config_file();
+    let r = run_inner(o, stats);
+    let _ = std::fs::remove_file(env_file);
+    r
+}
+
+fn run_inner(o: &Opts, stats: &mut Stats) -> Option<usize> {
     if let Some(path) = &o.replay {
         let v: serde_json::Value = serde_json::from_str(&std::fs::read_to_string(path).unwrap()).unwrap();
         let cfg: Cfg = serde_json::from_value(v["config"].clone()).unwrap();
